@@ -8,7 +8,7 @@ use std::panic::{catch_unwind, AssertUnwindSafe};
 use std::sync::atomic::{AtomicU64, Ordering};
 use std::time::Instant;
 
-fn dfs(ctx: &mut Ctx, node: &Node, seen: &mut FxSet<TurnKey>, max_turns: usize) {
+fn dfs(ctx: &mut Ctx, node: &Node, seen: &mut FxSet<TurnKey>, max_turns: usize, follow: Option<u64>) {
     if report::stopped() {
         return;
     }
@@ -20,9 +20,19 @@ fn dfs(ctx: &mut Ctx, node: &Node, seen: &mut FxSet<TurnKey>, max_turns: usize) 
     ctx.stats.digest = ctx.stats.digest.wrapping_add(sip(&(ctx.root.idx, key, node.gold)));
     let succ = visit(ctx, node);
     for s in succ {
+        // confinement (padded families): every offered action has been checked by `visit`; only steps that start and end
+        // inside the followed region (and passes) are expanded further
+        if let (Some(mask), arimaa_engine_step::Action::Move(sq, d)) = (follow, &s.action) {
+            let from = sq.index();
+            let inside = |i: usize| mask >> i & 1 == 1;
+            if !inside(from) || !rm::nb(from, crate::glue::dir_index(*d)).map_or(false, inside) {
+                ctx.stats.add("e1_transitions_checked_but_not_followed", 1);
+                continue;
+            }
+        }
         if !s.ends_turn || s.node.hist.len() <= max_turns {
             ctx.path.push(s.action);
-            dfs(ctx, &s.node, seen, max_turns);
+            dfs(ctx, &s.node, seen, max_turns, follow);
             ctx.path.pop();
         }
     }
@@ -40,6 +50,8 @@ pub struct E1Opts<'a> {
     pub roots_only: bool,
     /// number of full turns explored from each root (1 = the turn explorer proper)
     pub max_turns: usize,
+    /// Some(mask): expand only steps whose source and target squares are in the mask (all offered actions are still checked)
+    pub follow: Option<u64>,
 }
 
 pub fn run_family(fam: &Family, o: &E1Opts) -> FamilyResult {
@@ -77,7 +89,7 @@ pub fn run_family(fam: &Family, o: &E1Opts) -> FamilyResult {
                     ctx.stats.states += 1;
                 } else {
                     let mut seen: FxSet<TurnKey> = FxSet::default();
-                    dfs(&mut ctx, &n, &mut seen, o.max_turns);
+                    dfs(&mut ctx, &n, &mut seen, o.max_turns, o.follow);
                 }
             }));
             if r.is_err() {
